@@ -44,10 +44,14 @@ type prover struct {
 	scenario map[*ssa.Phi]int // chosen edge for selector phis
 	extra    []fact           // facts from the chosen phi edges
 	pre      *precond
+	depth    int // nesting of guard-helper look-ups
 }
 
+// precond is one observation of how a function is called from inside the analysed set: per parameter index the
+// length range of a sequence argument, the value range of an integer argument, and pairwise length order.
 type precond struct {
 	lenLo, lenHi map[int]int64   // per param index
+	valLo, valHi map[int]int64   // integer parameters
 	le           map[[2]int]bool // len(param i) <= len(param j)
 }
 
@@ -174,6 +178,16 @@ func (p *prover) eval0(v ssa.Value, b *ssa.BasicBlock, depth int) lin {
 		if k, ok := constInt(x); ok {
 			return lin{lo: k, hi: k, ok: true, nonneg: k >= 0}
 		}
+	case *ssa.Parameter:
+		if p.pre != nil {
+			if i := paramIndex(p.fn, x); i >= 0 {
+				lo, ok1 := p.pre.valLo[i]
+				hi, ok2 := p.pre.valHi[i]
+				if ok1 && ok2 {
+					return lin{lo: lo, hi: hi, ok: true, nonneg: lo >= 0}
+				}
+			}
+		}
 	case *ssa.Convert:
 		if _, ok := x.X.Type().Underlying().(*types.Basic); ok {
 			return p.eval(x.X, b, depth+1)
@@ -234,16 +248,30 @@ func (p *prover) eval0(v ssa.Value, b *ssa.BasicBlock, depth int) lin {
 		if e, ok := p.scenario[x]; ok {
 			return p.eval(x.Edges[e], x.Block().Preds[e], depth+1)
 		}
-		// loop counter: phi(c0, self+step)
-		if len(x.Edges) == 2 {
-			for i := 0; i < 2; i++ {
-				c0, okc := constInt(x.Edges[i])
-				bo, okb := x.Edges[1-i].(*ssa.BinOp)
-				if okc && okb && bo.Op == token.ADD && bo.X == ssa.Value(x) {
-					if st, ok := constInt(bo.Y); ok && st > 0 {
-						r := lin{lo: c0, hi: inf, ok: true, nonneg: c0 >= 0}
-						return p.refine(x, r, b)
-					}
+		// loop counter: phi(c0, self+step [, self+step …]) — one constant entry value, every other edge the same increment
+		// (a `continue` adds a further back edge carrying the same value)
+		if len(x.Edges) >= 2 {
+			var c0 int64
+			nConst := 0
+			var inc *ssa.BinOp
+			okShape := true
+			for _, ed := range x.Edges {
+				if k, okc := constInt(ed); okc {
+					c0 = k
+					nConst++
+					continue
+				}
+				bo, okb := ed.(*ssa.BinOp)
+				if !okb || bo.Op != token.ADD || bo.X != ssa.Value(x) || (inc != nil && inc != bo) {
+					okShape = false
+					break
+				}
+				inc = bo
+			}
+			if okShape && nConst == 1 && inc != nil {
+				if st, ok := constInt(inc.Y); ok && st > 0 {
+					r := lin{lo: c0, hi: inf, ok: true, nonneg: c0 >= 0}
+					return p.refine(x, r, b)
 				}
 			}
 		}
@@ -455,6 +483,16 @@ func (p *prover) lenBounds(X ssa.Value, b *ssa.BasicBlock) (int64, int64) {
 	}
 	for excluded[lo] && lo < hi {
 		lo++
+	}
+	// guard helpers: on the `err == nil` edge of a call h(…, X, …) to a function of the module, X has the length
+	// range it has at every nil-error return of h
+	if glo, ghi, ok := p.guardHelperBounds(root, b); ok {
+		if glo > lo {
+			lo = glo
+		}
+		if ghi < hi {
+			hi = ghi
+		}
 	}
 	// regexp knowledge
 	if call, ok := root.(*ssa.Call); ok {
@@ -889,9 +927,13 @@ func indexSites(fn *ssa.Function) []site {
 }
 
 func (c *Ctx) RuleIndexObligations(fns map[*ssa.Function]bool) {
-	pre := c.preconditions(fns)
+	pre := c.observations(fns)
 	for _, fn := range SortedFuncs(fns) {
 		sel := selectorPhis(fn)
+		obsList := pre[fn]
+		if len(obsList) == 0 {
+			obsList = []*precond{nil}
+		}
 		for _, s := range indexSites(fn) {
 			// skip compiler-generated varargs arrays and local array literals with constant index
 			if al, ok := s.X.(*ssa.Alloc); ok {
@@ -913,10 +955,12 @@ func (c *Ctx) RuleIndexObligations(fns map[*ssa.Function]bool) {
 			var rec func(i int, sc map[*ssa.Phi]int, extra []fact)
 			rec = func(i int, sc map[*ssa.Phi]int, extra []fact) {
 				if i == len(doms) {
-					p := &prover{c: c, fn: fn, scenario: sc, extra: extra, pre: pre[fn]}
-					if ok, w := p.prove(s); !ok {
-						okAll = false
-						why = w
+					for _, ob := range obsList {
+						p := &prover{c: c, fn: fn, scenario: sc, extra: extra, pre: ob}
+						if ok, w := p.prove(s); !ok {
+							okAll = false
+							why = w
+						}
 					}
 					return
 				}
@@ -1026,99 +1070,204 @@ func paramIndex(fn *ssa.Function, v ssa.Value) int {
 	return -1
 }
 
-// preconditions from all in-set call sites: exact/hull length facts and pairwise length order.
-func (c *Ctx) preconditions(fns map[*ssa.Function]bool) map[*ssa.Function]*precond {
-	out := map[*ssa.Function]*precond{}
-	type obs struct {
-		lo, hi map[int]int64
-		le     map[[2]int]bool
+// observations: for every function of the set, how it is called from inside the set — one observation per call
+// site, per observation of the caller and per selector-phi scenario at the call (so that correlated facts such as
+// "offset 9 goes with length 45" survive). A function that can also be called from outside (exported, or used as a
+// value) additionally gets the unconstrained observation nil. Recursion gets nil.
+func (c *Ctx) observations(fns map[*ssa.Function]bool) map[*ssa.Function][]*precond {
+	type site struct {
+		caller *ssa.Function
+		call   *ssa.Call
 	}
-	all := map[*ssa.Function][]obs{}
+	callers := map[*ssa.Function][]site{}
+	usedAsValue := map[*ssa.Function]bool{}
 	for caller := range fns {
 		for _, b := range caller.Blocks {
 			for _, in := range b.Instrs {
-				call, ok := in.(*ssa.Call)
-				if !ok {
-					continue
-				}
-				callee := c.StaticCallee(&call.Call)
-				if callee == nil || !fns[callee] {
-					continue
-				}
-				p := &prover{c: c, fn: caller, scenario: map[*ssa.Phi]int{}}
-				o := obs{lo: map[int]int64{}, hi: map[int]int64{}, le: map[[2]int]bool{}}
-				for i, a := range call.Call.Args {
-					if !isByteSeq(a.Type().Underlying()) && !isByteSeq(a.Type()) {
-						continue
+				if call, ok := in.(*ssa.Call); ok {
+					if callee := c.StaticCallee(&call.Call); callee != nil && fns[origin(callee)] {
+						callers[origin(callee)] = append(callers[origin(callee)], site{caller, call})
 					}
-					lo, hi := p.lenBounds(a, b)
-					o.lo[i], o.hi[i] = lo, hi
 				}
-				// order facts: len(x) > len(y) / <= from dominating facts
-				for _, f := range p.facts(b) {
-					l := p.evalNoFacts(f.cond.X)
-					r := p.evalNoFacts(f.cond.Y)
-					if !l.ok || !r.ok || l.base == nil || r.base == nil || l.lo != 0 || l.hi != 0 || r.lo != 0 || r.hi != 0 {
-						continue
+				for _, op := range in.Operands(nil) {
+					if f, ok := (*op).(*ssa.Function); ok {
+						if call, isCall := in.(ssa.CallInstruction); !isCall || call.Common().Value != ssa.Value(f) {
+							usedAsValue[origin(f)] = true
+						}
 					}
-					op := f.cond.Op
-					if !f.truth {
-						op = negate(op)
+				}
+			}
+		}
+	}
+	out := map[*ssa.Function][]*precond{}
+	state := map[*ssa.Function]int{} // 1 in progress, 2 done
+	var obsOf func(fn *ssa.Function) []*precond
+	obsOf = func(fn *ssa.Function) []*precond {
+		switch state[fn] {
+		case 2:
+			return out[fn]
+		case 1:
+			return []*precond{nil} // recursion: unconstrained
+		}
+		state[fn] = 1
+		var list []*precond
+		external := len(callers[fn]) == 0 || usedAsValue[fn] || fn.Parent() != nil
+		if o := fn.Object(); o != nil && o.Exported() {
+			external = true
+		}
+		if external {
+			list = append(list, nil)
+		}
+		for _, st := range callers[fn] {
+			b := st.call.Block()
+			var doms []*ssa.Phi
+			for _, ph := range selectorPhis(st.caller) {
+				if ph.Block().Dominates(b) {
+					doms = append(doms, ph)
+				}
+			}
+			for _, cob := range obsOf(st.caller) {
+				var rec func(i int, sc map[*ssa.Phi]int, extra []fact)
+				rec = func(i int, sc map[*ssa.Phi]int, extra []fact) {
+					if i < len(doms) {
+						ph := doms[i]
+						for e := range ph.Edges {
+							sc2 := map[*ssa.Phi]int{}
+							for k, v := range sc {
+								sc2[k] = v
+							}
+							sc2[ph] = e
+							p0 := &prover{c: c, fn: st.caller}
+							rec(i+1, sc2, append(append([]fact{}, extra...), p0.edgeFacts(ph.Block().Preds[e], ph.Block())...))
+						}
+						return
 					}
-					for i, a := range call.Call.Args {
-						for j, a2 := range call.Call.Args {
-							if lenRoot(a) == l.base && lenRoot(a2) == r.base {
-								switch op {
-								case token.LSS, token.LEQ:
-									o.le[[2]int{i, j}] = true
-								case token.GTR, token.GEQ:
-									o.le[[2]int{j, i}] = true
+					p := &prover{c: c, fn: st.caller, scenario: sc, extra: extra, pre: cob}
+					o := &precond{lenLo: map[int]int64{}, lenHi: map[int]int64{}, valLo: map[int]int64{}, valHi: map[int]int64{}, le: map[[2]int]bool{}}
+					for ai, a := range st.call.Call.Args {
+						switch t := a.Type().Underlying().(type) {
+						case *types.Basic:
+							if t.Info()&types.IsInteger != 0 {
+								if e := p.eval(a, b, 0); e.ok && e.base == nil && e.lo > -inf && e.hi < inf {
+									o.valLo[ai], o.valHi[ai] = e.lo, e.hi
+								}
+								continue
+							}
+							if t.Info()&types.IsString == 0 {
+								continue
+							}
+						case *types.Slice, *types.Array, *types.TypeParam:
+						case *types.Pointer:
+							if _, isArr := t.Elem().Underlying().(*types.Array); !isArr {
+								continue
+							}
+						default:
+							if !isByteSeq(a.Type()) {
+								continue
+							}
+						}
+						o.lenLo[ai], o.lenHi[ai] = p.lenBounds(a, b)
+					}
+					// order facts between the lengths of two arguments
+					for _, f := range p.facts(b) {
+						l := p.evalNoFacts(f.cond.X)
+						r := p.evalNoFacts(f.cond.Y)
+						if !l.ok || !r.ok || l.base == nil || r.base == nil || l.lo != 0 || l.hi != 0 || r.lo != 0 || r.hi != 0 {
+							continue
+						}
+						op := f.cond.Op
+						if !f.truth {
+							op = negate(op)
+						}
+						for ai, a := range st.call.Call.Args {
+							for aj, a2 := range st.call.Call.Args {
+								if lenRoot(a) == l.base && lenRoot(a2) == r.base {
+									switch op {
+									case token.LSS, token.LEQ:
+										o.le[[2]int{ai, aj}] = true
+									case token.GTR, token.GEQ:
+										o.le[[2]int{aj, ai}] = true
+									}
 								}
 							}
 						}
 					}
+					// the caller's own argument order carries over when the same parameters are passed on
+					if cob != nil {
+						for ai, a := range st.call.Call.Args {
+							for aj, a2 := range st.call.Call.Args {
+								pi, pj := paramIndex(st.caller, lenRoot(a)), paramIndex(st.caller, lenRoot(a2))
+								if pi >= 0 && pj >= 0 && cob.le[[2]int{pi, pj}] {
+									o.le[[2]int{ai, aj}] = true
+								}
+							}
+						}
+					}
+					list = append(list, o)
 				}
-				all[callee] = append(all[callee], o)
+				rec(0, map[*ssa.Phi]int{}, nil)
 			}
 		}
+		if len(list) > 32 {
+			list = []*precond{hullOf(list)}
+		}
+		out[fn] = list
+		state[fn] = 2
+		return list
 	}
-	for fn, os := range all {
-		pc := &precond{lenLo: map[int]int64{}, lenHi: map[int]int64{}, le: map[[2]int]bool{}}
-		for i := range fn.Params {
-			lo, hi := int64(inf), int64(-inf)
-			okp := true
-			for _, o := range os {
-				l, ok1 := o.lo[i]
-				h, ok2 := o.hi[i]
-				if !ok1 || !ok2 {
-					okp = false
-					break
-				}
-				if l < lo {
-					lo = l
-				}
-				if h > hi {
-					hi = h
-				}
-			}
-			if okp && len(os) > 0 {
-				pc.lenLo[i], pc.lenHi[i] = lo, hi
-			}
-		}
-		for k := range os[0].le {
-			allHave := true
-			for _, o := range os {
-				if !o.le[k] {
-					allHave = false
-				}
-			}
-			if allHave {
-				pc.le[k] = true
-			}
-		}
-		out[fn] = pc
+	for fn := range fns {
+		obsOf(fn)
 	}
 	return out
+}
+
+// hullOf merges observations into one that each of them implies (nil stays nil: unconstrained).
+func hullOf(list []*precond) *precond {
+	for _, o := range list {
+		if o == nil {
+			return nil
+		}
+	}
+	h := &precond{lenLo: map[int]int64{}, lenHi: map[int]int64{}, valLo: map[int]int64{}, valHi: map[int]int64{}, le: map[[2]int]bool{}}
+	merge := func(get func(*precond) (map[int]int64, map[int]int64), lo, hi map[int]int64) {
+		l0, _ := get(list[0])
+		for i := range l0 {
+			a, b := int64(inf), int64(-inf)
+			ok := true
+			for _, o := range list {
+				ol, oh := get(o)
+				x, ok1 := ol[i]
+				y, ok2 := oh[i]
+				if !ok1 || !ok2 {
+					ok = false
+					break
+				}
+				if x < a {
+					a = x
+				}
+				if y > b {
+					b = y
+				}
+			}
+			if ok {
+				lo[i], hi[i] = a, b
+			}
+		}
+	}
+	merge(func(o *precond) (map[int]int64, map[int]int64) { return o.lenLo, o.lenHi }, h.lenLo, h.lenHi)
+	merge(func(o *precond) (map[int]int64, map[int]int64) { return o.valLo, o.valHi }, h.valLo, h.valHi)
+	for k := range list[0].le {
+		all := true
+		for _, o := range list {
+			if !o.le[k] {
+				all = false
+			}
+		}
+		if all {
+			h.le[k] = true
+		}
+	}
+	return h
 }
 
 var _ = strings.HasPrefix
@@ -1192,6 +1341,122 @@ func (p *prover) nonNilFact(v ssa.Value, b *ssa.BasicBlock) bool {
 		if op == token.NEQ && (f.cond.X == v && isNilConst(f.cond.Y) || f.cond.Y == v && isNilConst(f.cond.X)) {
 			return true
 		}
+	}
+	return false
+}
+
+// guardHelperBounds: facts of the form `h(args…) == nil` (error result) dominating b, where root is passed to h:
+// the length range of that parameter at every return of h that carries a nil error.
+func (p *prover) guardHelperBounds(root ssa.Value, b *ssa.BasicBlock) (int64, int64, bool) {
+	if p.depth > 2 {
+		return 0, 0, false
+	}
+	found := false
+	lo, hi := int64(0), int64(inf)
+	for _, f := range p.facts(b) {
+		op := f.cond.Op
+		if !f.truth {
+			op = negate(op)
+		}
+		if op != token.EQL || !isNilConst(f.cond.Y) {
+			continue
+		}
+		var call *ssa.Call
+		errIdx := -1
+		switch v := f.cond.X.(type) {
+		case *ssa.Call:
+			call, errIdx = v, 0
+		case *ssa.Extract:
+			if c, ok := v.Tuple.(*ssa.Call); ok {
+				call, errIdx = c, v.Index
+			}
+		}
+		if call == nil {
+			continue
+		}
+		h := p.c.StaticCallee(&call.Call)
+		if h == nil || !inRepo(h) || len(h.Blocks) == 0 {
+			continue
+		}
+		h = origin(h)
+		for ai, a := range call.Call.Args {
+			if lenRoot(a) != root || ai >= len(h.Params) {
+				continue
+			}
+			q := &prover{c: p.c, fn: h, scenario: map[*ssa.Phi]int{}, depth: p.depth + 1}
+			hlo, hhi := int64(inf), int64(-inf)
+			n := 0
+			for _, hb := range h.Blocks {
+				ret, ok := hb.Instrs[len(hb.Instrs)-1].(*ssa.Return)
+				if !ok || errIdx >= len(ret.Results) || !isNilConst(ret.Results[errIdx]) {
+					// a return whose error may be non-nil does not reach the caller's nil edge... unless the value is not a
+					// constant: then nothing is known
+					if ok && errIdx < len(ret.Results) {
+						if _, isConst := ret.Results[errIdx].(*ssa.Const); !isConst && !p.c.nonNilError(ret.Results[errIdx], 0) {
+							n = -1 << 20 // may be nil dynamically: give up
+						}
+					}
+					continue
+				}
+				l, u := q.lenBounds(h.Params[ai], hb)
+				if l < hlo {
+					hlo = l
+				}
+				if u > hhi {
+					hhi = u
+				}
+				n++
+			}
+			if n > 0 {
+				found = true
+				if hlo > lo {
+					lo = hlo
+				}
+				if hhi < hi {
+					hi = hhi
+				}
+			}
+		}
+	}
+	return lo, hi, found
+}
+
+// nonNilError: v is certainly a non-nil error: a boxed concrete value, fmt.Errorf / errors.New, or the result of a
+// function of the module all of whose returns are such values.
+func (c *Ctx) nonNilError(v ssa.Value, depth int) bool {
+	if depth > 3 {
+		return false
+	}
+	switch x := v.(type) {
+	case *ssa.MakeInterface:
+		return true
+	case *ssa.Call:
+		f := c.StaticCallee(&x.Call)
+		if f == nil {
+			return false
+		}
+		switch origin(f).String() {
+		case "fmt.Errorf", "errors.New":
+			return true
+		}
+		if !inRepo(f) || len(f.Blocks) == 0 {
+			return false
+		}
+		for _, b := range origin(f).Blocks {
+			if ret, ok := b.Instrs[len(b.Instrs)-1].(*ssa.Return); ok {
+				if len(ret.Results) == 0 || !c.nonNilError(ret.Results[len(ret.Results)-1], depth+1) {
+					return false
+				}
+			}
+		}
+		return true
+	case *ssa.Phi:
+		for _, e := range x.Edges {
+			if !c.nonNilError(e, depth+1) {
+				return false
+			}
+		}
+		return true
 	}
 	return false
 }
